@@ -138,6 +138,19 @@ pub fn collapse(evs: &[Ev]) -> Vec<Ev> {
     out
 }
 
+/// the runs of repeated reads / writes behind each collapsed call
+pub fn collapse_runs(evs: &[Ev]) -> Vec<Vec<Ev>> {
+    let mut out: Vec<Vec<Ev>> = vec![];
+    for e in evs {
+        if matches!(e.call.as_str(), "readIn" | "writeDest" | "writeStdout") && out.last().map_or(false, |l| l[0].call == e.call) {
+            out.last_mut().unwrap().push(e.clone());
+            continue;
+        }
+        out.push(vec![e.clone()]);
+    }
+    out
+}
+
 struct Setup {
     dir: PathBuf,
     input: Vec<u8>,
@@ -201,7 +214,16 @@ pub fn corr(ctx: &mut Ctx) {
         let o = HOpts::from_preset(2);
         if let Outcome::Ok(b) = run_case(&c.input, &o) {
             if b.len() < c.input.len() {
-                break (c.input, b);
+                // "not improvable" = a fixed point of the default run (one run's output can sometimes be
+                // improved by a second run, C04's chains; iterate until it cannot)
+                let mut fix = b;
+                for _ in 0..16 {
+                    match run_case(&fix, &o) {
+                        Outcome::Ok(b2) if b2.len() < fix.len() => fix = b2,
+                        _ => break,
+                    }
+                }
+                break (c.input, fix);
             }
         }
     };
@@ -284,7 +306,20 @@ pub fn corr(ctx: &mut Ctx) {
                     }
                 }
                 // ---- fault at every call index --------------------------------------------------
-                for (k, e) in sk.iter().enumerate() {
+                // (a call the model has once may be several system calls - a large read or write, or the
+                // tail a line-buffered standard output keeps back: the fault is put on the first and on the
+                // last of them, on all of them in the thorough tier)
+                let runs = collapse_runs(&evs);
+                let mut sites: Vec<(usize, Ev)> = vec![];
+                for (k, run) in runs.iter().enumerate() {
+                    let picks: Vec<usize> = if run.len() == 1 { vec![0] } else if ctx.tier_thorough { (0..run.len().min(8)).chain(std::iter::once(run.len() - 1)).collect() } else { vec![0, run.len() - 1] };
+                    let mut seen = vec![];
+                    for p in picks {
+                        if !seen.contains(&p) { seen.push(p); sites.push((k, run[p].clone())); }
+                    }
+                    if run.len() > 1 { st.count("calls_with_several_syscalls"); }
+                }
+                for (k, e) in sites.iter().map(|(k, e)| (*k, e)) {
                     let mut faults: Vec<(String, String)> = vec![];
                     let en = if ctx.tier_thorough { errnos.to_vec() } else { vec![errnos[(k + configs) % 3]] };
                     for errno in en {
